@@ -1,0 +1,12 @@
+//go:build !verif
+
+package verifhook
+
+// Enabled tells whether hooks are compiled in.
+const Enabled = false
+
+// Point marks a named point in the code. No-op without the verif build tag.
+func Point(name string, args ...any) {}
+
+// Fault marks a named point at which the harness may inject an error. Always nil without the verif build tag.
+func Fault(name string, args ...any) error { return nil }
